@@ -1,103 +1,28 @@
-//! Toy short-Weierstrass curves over the cubic extension F_343 = F_7[u]/(u^3 - 3) with a = 0.
-//! No shipped curve has a = 0 over a base field of extension degree >= 3, yet `double_in_place` has a separate
-//! branch for exactly that shape; the property quantifies over "base field prime and extension", so the branch is
-//! reached here with user-defined configurations: every ordered pair of points, through the whole battery.
+//! Toy short-Weierstrass curves over extension fields of F_7 (`vh_core::toy_ext`): F_49 (a = 0 and a != 0) and
+//! F_343 with a = 0 — the latter a shape no shipped curve has, but for which `double_in_place` has a separate
+//! branch (a = 0 and extension degree >= 3). The property quantifies over "base field prime and extension", so
+//! every ordered pair of points goes through the whole battery, with rescaling factors from the whole field.
 use crate::battery::*;
-use crate::toy_cfg::C7;
-use ark_ec::models::short_weierstrass::{self as sw, SWCurveConfig};
-use ark_ec::models::CurveConfig;
-use ark_ff::fields::{Fp, Fp3, MontBackend, MontConfig};
-use ark_ff::{Field, MontFp, One, Zero};
+use ark_ec::models::short_weierstrass::SWCurveConfig;
+use ark_ff::{Field, One, Zero};
 use std::sync::Arc;
 use vh_core::curve::*;
 use vh_core::engine::{Obs, Rel, Tape, Tier, R};
+use vh_core::toy_ext::{all_elems, enumerate};
 use vh_core::zoo::T7;
 
-type Fq3 = Fp3<C7>;
-
-#[derive(MontConfig)]
-#[modulus = "307"]
-#[generator = "5"]
-pub struct R307Cfg;
-pub type R307 = Fp<MontBackend<R307Cfg, 1>, 1>;
-
-#[derive(MontConfig)]
-#[modulus = "109"]
-#[generator = "6"]
-pub struct R109Cfg;
-pub type R109 = Fp<MontBackend<R109Cfg, 1>, 1>;
-
-/// y^2 = x^3 + (1 + 3u): 307 points (prime order)
-#[derive(Clone, Default, PartialEq, Eq)]
-pub struct SwF343P;
-impl CurveConfig for SwF343P {
-    type BaseField = Fq3;
-    type ScalarField = R307;
-    const COFACTOR: &'static [u64] = &[1];
-    const COFACTOR_INV: R307 = MontFp!("1");
-}
-impl SWCurveConfig for SwF343P {
-    const COEFF_A: Fq3 = Fq3::new(MontFp!("0"), MontFp!("0"), MontFp!("0"));
-    const COEFF_B: Fq3 = Fq3::new(MontFp!("1"), MontFp!("3"), MontFp!("0"));
-    const GENERATOR: sw::Affine<Self> =
-        sw::Affine::new_unchecked(Fq3::new(MontFp!("0"), MontFp!("1"), MontFp!("1")), Fq3::new(MontFp!("0"), MontFp!("3"), MontFp!("5")));
-}
-
-/// y^2 = x^3 + (1 + u): 327 = 3 * 109 points (cofactor 3)
-#[derive(Clone, Default, PartialEq, Eq)]
-pub struct SwF343H3;
-impl CurveConfig for SwF343H3 {
-    type BaseField = Fq3;
-    type ScalarField = R109;
-    const COFACTOR: &'static [u64] = &[3];
-    // 3 * 73 = 219 = 2 * 109 + 1
-    const COFACTOR_INV: R109 = MontFp!("73");
-}
-impl SWCurveConfig for SwF343H3 {
-    const COEFF_A: Fq3 = Fq3::new(MontFp!("0"), MontFp!("0"), MontFp!("0"));
-    const COEFF_B: Fq3 = Fq3::new(MontFp!("1"), MontFp!("1"), MontFp!("0"));
-    const GENERATOR: sw::Affine<Self> =
-        sw::Affine::new_unchecked(Fq3::new(MontFp!("0"), MontFp!("1"), MontFp!("2")), Fq3::new(MontFp!("6"), MontFp!("4"), MontFp!("4")));
-}
-
-fn all_elems() -> Vec<Fq3> {
-    let mut v = Vec::with_capacity(343);
-    for a in 0..7u64 {
-        for b in 0..7u64 {
-            for c in 0..7u64 {
-                v.push(Fq3::new(T7::from(a), T7::from(b), T7::from(c)));
-            }
-        }
-    }
-    v
-}
-
-/// brute force over all (x, y) in F_343^2, independent of arkworks' square roots
-fn enumerate(b: &Fq3) -> Vec<Sw<Fq3>> {
-    let els = all_elems();
-    let mut out = vec![Sw::Inf];
-    for x in &els {
-        let rhs = x.square() * x + b;
-        for y in &els {
-            if y.square() == rhs {
-                out.push(Sw::Aff(*x, *y));
-            }
-        }
-    }
-    out
-}
-
-fn decode<P: SWCurveConfig<BaseField = Fq3>>(pts: &[Sw<Fq3>], els: &[Fq3], t: &mut Tape<'_>) -> Case<SwM<P>> {
+fn decode<P: SWCurveConfig>(pts: &[Sw<P::BaseField>], els: &[P::BaseField], t: &mut Tape<'_>) -> Case<SwM<P>> {
     let n = pts.len();
+    let q = els.len();
     let i = t.idx(n);
     let j = t.idx(n);
-    // rescaling factors: any non-zero element of F_343 (index 0 is zero; word 0 -> 1)
+    // rescaling factors: any non-zero element (els[0] is zero; word 0 -> 1)
     let nz = |t: &mut Tape<'_>| {
-        let k = t.below(342) as usize;
+        let k = t.idx(q - 1);
         if k == 0 {
-            Fq3::one()
+            P::BaseField::one()
         } else {
-            els[k + 1 - (k + 1 >= 343) as usize]
+            els[k]
         }
     };
     let lam = nz(t);
@@ -105,11 +30,11 @@ fn decode<P: SWCurveConfig<BaseField = Fq3>>(pts: &[Sw<Fq3>], els: &[Fq3], t: &m
     let nu = nz(t);
     let junk = |t: &mut Tape<'_>| {
         let s = t.below(3);
-        let x = els[t.idx(343)];
-        let y = els[t.idx(343)];
+        let x = els[t.idx(q)];
+        let y = els[t.idx(q)];
         match s {
-            0 => (Fq3::one(), Fq3::one()),
-            1 => (Fq3::zero(), Fq3::zero()),
+            0 => (P::BaseField::one(), P::BaseField::one()),
+            1 => (P::BaseField::zero(), P::BaseField::zero()),
             _ => (x, y),
         }
     };
@@ -119,7 +44,7 @@ fn decode<P: SWCurveConfig<BaseField = Fq3>>(pts: &[Sw<Fq3>], els: &[Fq3], t: &m
     Case { p: pts[i], q: pts[j], lam, mu, nu, jp, jq, sel }
 }
 
-fn rel<P: SWCurveConfig<BaseField = Fq3>>(name: &'static str, pts: &[Sw<Fq3>], els: &[Fq3], t: &mut Tape<'_>, o: &mut Obs) -> R {
+fn rel<P: SWCurveConfig>(name: &'static str, pts: &[Sw<P::BaseField>], els: &[P::BaseField], t: &mut Tape<'_>, o: &mut Obs) -> R {
     let c = decode::<P>(pts, els, t);
     o.show(|| format!("{}: P={:?} Q={:?} lambda={:?} mu={:?} sel={:#x}", name, c.p, c.q, c.lam, c.mu, c.sel));
     classify(&c, o)?;
@@ -137,7 +62,7 @@ fn all_pairs(n: u64, patterns: u64) -> Box<dyn Iterator<Item = Vec<u64>>> {
     Box::new((0..n).flat_map(move |i| {
         (0..n).flat_map(move |j| {
             (0..patterns).map(move |k| {
-                let h = |s: u64| mix((i * 1000 + j) * 8 + k ^ (s << 56));
+                let h = |s: u64| mix(((i * 1000 + j) * 8 + k) ^ (s << 56));
                 let (lw, mw, jsel) = match k {
                     0 => (0, 0, 0),
                     1 => (1, h(1), 1),
@@ -149,24 +74,24 @@ fn all_pairs(n: u64, patterns: u64) -> Box<dyn Iterator<Item = Vec<u64>>> {
     }))
 }
 
+fn add<P: SWCurveConfig>(out: &mut Vec<Rel>, name: &'static str, count: usize, tier: Tier)
+where
+    P::BaseField: Field<BasePrimeField = T7>,
+{
+    let els = Arc::new(all_elems::<P::BaseField>());
+    let pts = Arc::new(enumerate::<P>());
+    assert_eq!(pts.len(), count, "toy curve {}: point count", name);
+    assert!(pts.contains(&sw_from_affine::<P>(&P::GENERATOR)), "toy curve {}: generator", name);
+    let n = pts.len() as u64;
+    let patterns = if n < 100 { 4 } else { tier.pick(2, 3) };
+    out.push(Rel::new(format!("toy-sw-pairs/{}", name), tier.pick(400, 4000), 12, move |t, o| rel::<P>(name, &pts, &els, t, o)).exhaustive(move || all_pairs(n, patterns)));
+}
+
 pub fn relations(out: &mut Vec<Rel>, tier: Tier) {
-    let els = Arc::new(all_elems());
     macro_rules! curve {
-        ($cfg:ty, $name:expr, $count:expr) => {{
-            let b = <$cfg as SWCurveConfig>::COEFF_B;
-            assert!(<$cfg as SWCurveConfig>::COEFF_A.is_zero());
-            let pts = Arc::new(enumerate(&b));
-            assert_eq!(pts.len(), $count, "toy curve {}: point count", $name);
-            assert!(pts.contains(&sw_from_affine::<$cfg>(&<$cfg as SWCurveConfig>::GENERATOR)), "toy curve {}: generator", $name);
-            let n = pts.len() as u64;
-            let (pp, ee) = (pts.clone(), els.clone());
-            let patterns = tier.pick(2, 3);
-            out.push(
-                Rel::new(format!("toy-sw-pairs/{}", $name), tier.pick(400, 4000), 12, move |t, o| rel::<$cfg>($name, &pp, &ee, t, o))
-                    .exhaustive(move || all_pairs(n, patterns)),
-            );
-        }};
+        ($cfg:ty, $name:expr, $count:expr, $h:expr, $r:expr) => {
+            add::<$cfg>(out, $name, $count, tier);
+        };
     }
-    curve!(SwF343P, "SwF343P(a=0,Fp3,prime-order)", 307);
-    curve!(SwF343H3, "SwF343H3(a=0,Fp3,cofactor-3)", 327);
+    vh_core::for_each_toy_sw_ext!(curve);
 }
